@@ -344,11 +344,21 @@ pub fn run_docs(case: &Value, _seed: u64) -> Outcome {
                         Ok((es, svs)) => {
                             if es != exp_entries { o.v("C10", "struct_lossless", "lossless accessors", "mismatch", &feats, &text, format!("got {:?} expected {:?}", es, exp_entries)); }
                             if svs != exp_sv { o.v("C10", "substvars", "Relations::substvars", "mismatch", &feats, &text, format!("got {:?} expected {:?}", svs, exp_sv)); }
+                            // the counting accessors speak of the same entries / alternatives
+                            if let Ok((n, emp, lens, emps)) = guarded("Relations::len / is_empty", || (rels.len(), rels.is_empty(), rels.entries().map(|e| e.len()).collect::<Vec<_>>(), rels.entries().map(|e| e.is_empty()).collect::<Vec<_>>())) {
+                                let want: Vec<usize> = exp_entries.iter().map(|e| e.len()).collect();
+                                if n != exp_entries.len() || emp != exp_entries.is_empty() || lens != want || emps.iter().any(|x| *x) {
+                                    o.v("C10", "struct_lossless", "Relations::len / is_empty, Entry::len / is_empty", "mismatch", &feats, &text, format!("len {} is_empty {} entry lens {:?}; expected {} entries {:?}", n, emp, lens, exp_entries.len(), want));
+                                }
+                            }
                         }
                     }
                 }
             }
         }
+        // (layout 5 puts bare newlines between the terms of a profile group: the lossy reader takes newlines around ','
+        // and '|' only - its part of C10 speaks of blanks "around separators" - so it is not asked about these fields)
+        if case["nlin"].as_bool() == Some(true) { continue; }
         // ---- C10, lossy reader (fields without substitution variables)
         if !has_sv {
             match guarded("lossy::Relations::from_str", || debian_control::lossy::Relations::from_str(&text)) {
